@@ -750,8 +750,73 @@ def check_tree_construction(rep, prog):
     return n
 
 
+SORTED_INPUT_ALGOS = ('std::set_difference', 'std::set_intersection', 'std::set_union', 'std::set_symmetric_difference', 'std::includes', 'std::merge',
+                      'std::binary_search', 'std::lower_bound', 'std::upper_bound', 'std::equal_range')
+
+
+def check_sorted_inputs(rep, prog, files=('lex_dijkstra', 'sptrees', 'cycles')):
+    """R12h: every range handed to an algorithm that requires sorted input is a std::set / std::map range, or a sequence with a dominating std::sort
+    in the same function.  (The tie-break of the lexicographic labels compares vertex sets with std::set_difference.)"""
+    n = 0
+    for fn in prog.functions:
+        if fn.implicit or fn.body is None or not (fn.file.startswith(env.REPO + '/include') or fn.file.startswith(env.WITNESS + '/positive')):
+            continue
+        if files and not any(x in fn.file for x in files):
+            continue
+        for d in fn.walk():
+            if not (d.k == 'CallExpr' and d.callee and d.callee['g'] in SORTED_INPUT_ALGOS):
+                continue
+            nin = 4 if d.callee['g'] in ('std::set_difference', 'std::set_intersection', 'std::set_union', 'std::set_symmetric_difference', 'std::includes', 'std::merge') else 2
+            args = d.args()[:nin]
+            for k in range(0, len(args), 2):
+                a0 = args[k].strip_all()
+                if not (a0.k == 'CXXMemberCallExpr' and a0.callee and a0.callee['name'] in ('begin', 'cbegin') and a0.object_arg() is not None):
+                    continue
+                cont = a0.object_arg().strip_all()
+                ct = prog.base_type(cont.j.get('t')) or {}
+                rec = ct.get('rec') or ''
+                n += 1
+                what = 'the range `%s` passed to %s is sorted' % (cont.text(30), d.callee['g'])
+                if rec in ('std::set', 'std::map', 'std::multiset', 'std::multimap'):
+                    rep.ok('R12h', d, fn, what, '%s iterates in key order' % rec)
+                    continue
+                cv = ex.var_of(cont)
+                if cv is not None and prog.vars[cv]['kind'] in ('local', 'param') and ex.sorted_before(fn, cv, d):
+                    rep.ok('R12h', d, fn, what, 'sorted by a dominating std::sort')
+                    continue
+                unsorted_fill = None
+                if cv is not None and prog.vars[cv]['kind'] == 'local':
+                    unsorted_fill = 'local sequence without a dominating std::sort'
+                elif cont.k == 'MemberExpr' and cont.c:
+                    # a data member: look for a construction of the record from a local sequence that is appended to and not sorted
+                    owner = (prog.base_type(cont.c[0].strip_all().j.get('t')) or {}).get('rec')
+                    for g_ in prog.functions:
+                        if g_.implicit or g_.body is None:
+                            continue
+                        for x in g_.walk():
+                            if x.k in ex.CTOR_KINDS and x.callee and x.callee.get('ctor') and (x.callee.get('rec') or '') == owner:
+                                for a_ in x.c:
+                                    av = ex.var_of(a_)
+                                    if av is None or prog.vars[av]['kind'] != 'local' or prog.rec_name(prog.vars[av]['ty']) != rec:
+                                        continue
+                                    appends = [y for y in g_.walk() if y.k == 'CXXMemberCallExpr' and y.callee and y.callee['name'] in ('push_back', 'emplace_back') and
+                                               ex.var_of(y.object_arg()) == av]
+                                    if appends and not ex.sorted_before(g_, av, x):
+                                        unsorted_fill = 'filled by push_back in %s (line %d) and handed to the constructor unsorted' % (g_.g, appends[0].line)
+                if unsorted_fill:
+                    rep.violation('R12h', d, fn, what,
+                                  '`%s` is a %s that is not kept in order (%s): %s needs sorted input, on unsorted data its result is arbitrary, the comparison '
+                                  'built on it is not a consistent order and tie-breaking depends on discovery order' % (
+                                      cont.text(30), rec or ct.get('s'), unsorted_fill, d.callee['g']), key='R12h|%s|%s' % (fn.g, cont.text(20)))
+                else:
+                    rep.undecided('R12h', d, fn, what, '`%s` is a %s; whether it is kept sorted is not visible here' % (cont.text(30), rec or ct.get('s')))
+    return n
+
+
 def run(rep, tier):
     from . import search
+    rep.rule('R12h', 'algorithms that need sorted input get sorted ranges', floor=2)
+    rep.rule('R14d', 'the root node of a tree has distance zero', floor=1)
     rep.rule('R12a', 'lexicographic comparator consistency', floor=1)
     rep.rule('R12b', 'first-in-path labels for every visited node including the root', floor=1)
     rep.rule('R12g', 'first-in-path label values', floor=1)
@@ -773,6 +838,13 @@ def run(rep, tier):
         n += check_lex_updates(rep, prog)
         check_combine(rep, prog)
         check_tree_construction(rep, prog)
+        check_sorted_inputs(rep, prog)
+        from . import c14
+        sub14 = type(rep)(rep.prop, rep.tier)
+        c14.check_program(sub14, prog)
+        for i in sub14.instances.values():
+            if i.rule == 'R14d':
+                rep.add(i.rule, i.site, i.function, i.what, i.status, i.detail, key=i.key)
     if n == 0:
         rep.analysis_broken('parmcb::lex_dijkstra is not instantiated (anchor vanished)')
     pos = os.path.join(env.WITNESS, 'positive', 'c12_trees.cc')
@@ -786,11 +858,12 @@ def run(rep, tier):
         check_lex_updates(prep, pp)
         check_combine(prep, pp)
         check_tree_construction(prep, pp)
+        check_sorted_inputs(prep, pp)
         # R12b's positive (root never labelled) lives in the C14 example tree
         pos14 = os.path.join(env.WITNESS, 'positive', 'c14_candidates.cc')
         pp14 = env.extract([pos14], 'full', ('first:-I' + os.path.join(env.WITNESS, 'positive', 'broken_include3'),))[pos14]
         check_first_in_path(prep, pp14)
-        for r in ('R12a', 'R12b', 'R12g', 'R02h', 'R12c', 'R12d', 'R12e'):
+        for r in ('R12a', 'R12b', 'R12g', 'R02h', 'R12c', 'R12d', 'R12e', 'R12h'):
             rep.positive(r, 'witness/positive/c12_trees.cc', any(i.status == 'violation' and i.rule == r for i in prep.instances.values()))
     except env.AnalysisBroken as e:
         rep.analysis_broken('positive example c12_trees.cc does not parse: ' + str(e)[:300])
